@@ -92,6 +92,17 @@ def restore_loads_index(crate):
     ex = P.mk_executor(crate, cap=2, loop_bound=4, inline=INLINE_STORAGE)
     st = State()
     iref, safe, ab, act, blob = _inner_state(crate, ex, st)
+    has_closed = z3.Bool("has_closed_blob")
+
+    def hook(ex_, st_, cname, args, dty):
+        # the container's answers are consistent with each other: last_id / get_child_mut / pop agree on emptiness
+        if cname in ("HierarchicalFilters::last_id", "HierarchicalFilters::get_child_mut", "HierarchicalFilters::pop", "HierarchicalFilters::last"):
+            v = ex_.fresh(dty, st_, "hf")
+            st_.pc.append((ex_.get_discr(st_, v).t == BV64(1)) == has_closed)
+            st_.events.append(("call", cname, args, v))
+            return [(v, None)]
+        return None
+    ex.call_hook = hook
     outs = P.drive_async(ex, st, fn, [iref])
     res.paths = len(outs)
 
@@ -105,6 +116,14 @@ def restore_loads_index(crate):
             return False
         if not P.prove(ex, res, o, z3.Implies(act == BV64(1), z3.And(z3.Not(isok), z3.BoolVal(i_pop is None))), "active blob present: Err, nothing popped"):
             return False
+        if i_load is not None:
+            l_ok = _ev_result_ok(ex, o, evs[i_load])
+            if i_pop is not None and not i_load < i_pop:
+                res.status = "violated"; res.detail = "the blob is taken out of the closed list before its index is loaded"; return False
+            if not P.prove(ex, res, o, z3.Implies(z3.Not(l_ok), z3.And(z3.Not(isok), z3.BoolVal(i_pop is None))),
+                           "failed index load: Err, the blob stays in the closed list"):
+                return False
+            P.cover(ex, res, o, z3.Not(l_ok), "index load failed")
         if i_pop is not None:
             popped = ex.get_discr(o, evs[i_pop][3]).t == BV64(1)
             if not P.prove(ex, res, o, z3.Implies(isok, popped), "Ok only if a closed blob was popped"):
@@ -113,17 +132,17 @@ def restore_loads_index(crate):
                 if not P.prove(ex, res, o, z3.Not(z3.And(isok, popped)), "restored blob's index is loaded before it becomes active"):
                     res.replay = {"kind": "native", "test": "c04_restore_after_dump_accepts_writes"}
                     return False
-            else:
-                l_ok = _ev_result_ok(ex, o, evs[i_load])
-                if not P.prove(ex, res, o, z3.Implies(isok, l_ok), "Ok only if the index load succeeded"):
-                    return False
-                if not P.prove(ex, res, o, z3.Implies(z3.And(popped, z3.Not(l_ok)), z3.BoolVal(i_push is not None)),
-                               "failed load: the popped blob goes back to the closed list"):
-                    return False
-                P.cover(ex, res, o, z3.Not(l_ok), "index load failed")
+            # C14: once the blob is out of the list nothing may suspend before it is installed
+            later = [e for e in evs[i_pop + 1:] if e[0] == "await"]
+            if later:
+                res.status = "violated"; res.detail = "suspension point (%s) between pop and installing the active blob: a dropped future loses the blob" % later[0][1]
+                res.replay = {"kind": "native", "test": "findings/c14_cancel_demo.rs preexisting_cancelled_restore_active_blob_loses_the_blob"}
+                return False
             s2 = _safe_in(crate, o, iref)
             ab2 = s2.fields[(None, crate.field_index("Safe", "active_blob"))]
             if not P.prove(ex, res, o, z3.Implies(isok, ex.get_discr(o, ab2).t == BV64(1)), "Ok => active blob is set"):
+                return False
+            if not P.prove(ex, res, o, z3.Implies(popped, isok), "a popped blob is always installed"):
                 return False
             P.cover(ex, res, o, isok, "restored")
             P.cover(ex, res, o, z3.Not(popped), "no closed blob")
@@ -527,3 +546,56 @@ def read_all_merge(crate, B=2, Lb=2):
     if B >= 2:
         need.append("three blobs contribute")
     return P.finish(ex, res, need)
+
+
+def deferred_deadline_inv(crate):
+    """C13: ObserverWorker::process_deferred_blob_index_dump is entered with next_deadline reset (tick_with_deadline did that):
+    whenever it leaves a deferred dump request registered (deferred_index_dump_info is Some) a deadline is armed again,
+    otherwise the worker would wait for messages only and the postponed dump would never start."""
+    res = P.ObResult("deferred_deadline_inv")
+    res.finding_key = "deferred-dump-without-deadline"
+    fn = crate.method("ObserverWorker", "process_deferred_blob_index_dump")
+    res.functions = ["ObserverWorker::process_deferred_blob_index_dump (async body)", "ObserverWorker::update_deadline"]
+    res.bounds = "one call, deferred request present/absent, every outcome of the elapsed-time tests and of starting the dump task"
+    ex = P.mk_executor(crate, cap=2, loop_bound=4, inline=[r"^ObserverWorker::update_deadline$", r"^Inner::config$"],
+                       havoc=[r"^<.*(Instant|Duration) as PartialOrd>::", r"^<.*Instant as (std::ops::)?Add<.*>>::add$", r"^(std::cmp::)?(Ord|PartialOrd)::(min|max)$",
+                              r"^<.*Instant as Ord>::", r"^Config::"])
+    st = State()
+    w = Obj("observer_worker::ObserverWorker<K>")
+    nd = Obj("std::option::Option<tokio::time::Instant>")
+    nd.discr = Sym(BV64(0), "isize")
+    w.fields[(None, crate.field_index("ObserverWorker", "next_deadline"))] = nd
+    di = Obj("std::option::Option<std::boxed::Box<observer_worker::DeferredEventData>>")
+    did = z3.BitVec("deferred_present", 64)
+    st.pc.append(z3.Or(did == BV64(0), did == BV64(1)))
+    di.discr = Sym(did, "isize")
+    dc = st.new_cell(Obj("observer_worker::DeferredEventData"))
+    di.fields[("Some", 0)] = Ref(dc, (), True, "Box<observer_worker::DeferredEventData>")
+    w.fields[(None, crate.field_index("ObserverWorker", "deferred_index_dump_info"))] = di
+    wc = st.new_cell(w)
+    outs = P.drive_async(ex, st, fn, [Ref(wc, (), True, "&mut ObserverWorker<K>")])
+    res.paths = len(outs)
+
+    def per_path(o, isok, payload):
+        w2 = o.mem[wc]
+        nd2 = w2.fields[(None, crate.field_index("ObserverWorker", "next_deadline"))]
+        di2 = w2.fields[(None, crate.field_index("ObserverWorker", "deferred_index_dump_info"))]
+        pending = ex.get_discr(o, di2).t == BV64(1)
+        armed = ex.get_discr(o, nd2).t == BV64(1)
+        if not P.prove(ex, res, o, z3.Implies(z3.And(isok, pending), armed), "a registered deferred dump always has a deadline"):
+            res.replay = {"kind": "native", "test": "findings/c13_deferred_dump_demo.rs deferred_dump_registered_while_dump_is_running_completes"}
+            return False
+        evs = P.events_of(o)
+        started = [e for e in evs if "try_run_old_blob_indexes_dump_task" in e[1]]
+        if started:
+            r = started[0][3]
+            if isinstance(r, Sym):
+                P.cover(ex, res, o, z3.And(z3.Not(r.t), pending), "dump task busy: request kept and re-armed")
+                P.cover(ex, res, o, z3.And(r.t, z3.Not(pending)), "dump started: request cleared")
+        else:
+            P.cover(ex, res, o, z3.And(pending, did == BV64(1)), "not yet time: deadline moved")
+        P.cover(ex, res, o, did == BV64(0), "nothing deferred")
+        return True
+
+    _check_paths(ex, res, outs, per_path)
+    return P.finish(ex, res, ["dump task busy: request kept and re-armed", "dump started: request cleared", "not yet time: deadline moved", "nothing deferred"])
